@@ -198,6 +198,125 @@ pub(crate) use {drive_multi, drive_single};
 
 include!(concat!(env!("OUT_DIR"), "/shapes.rs"));
 
+/// Hand-written shapes whose meaning depends on WHICH TRAITS ARE IN SCOPE where the struct is declared: the
+/// documented expansion is `self.field.update(env, rng)`, a method call resolved at the derive site. Here only
+/// the set trait is imported, and one member type implements the agent trait itself while dereferencing to a
+/// derived set: with the documented expansion the member is updated through the set it dereferences to (the
+/// agent trait is not in scope), exactly as the hand-written sequence in the same module does.
+#[cfg(feature = "shapes_b")]
+pub mod scoped_single {
+    use super::probes_single::{ProbeA, ProbeB};
+    use bourse_de::agents::AgentSet; // deliberately NOT `Agent`
+    use bourse_de::Env;
+    use rand::RngCore;
+    pub mod inner {
+        use super::{ProbeA, ProbeB};
+        use bourse_de::agents::{Agent, AgentSet};
+        #[derive(AgentSet)]
+        pub struct Pair {
+            pub a: ProbeA,
+            pub b: ProbeB,
+        }
+    }
+    pub struct Wrapper {
+        own: ProbeB,
+        set: inner::Pair,
+    }
+    impl std::ops::Deref for Wrapper {
+        type Target = inner::Pair;
+        fn deref(&self) -> &inner::Pair {
+            &self.set
+        }
+    }
+    impl std::ops::DerefMut for Wrapper {
+        fn deref_mut(&mut self) -> &mut inner::Pair {
+            &mut self.set
+        }
+    }
+    impl bourse_de::agents::Agent for Wrapper {
+        fn update<R: RngCore>(&mut self, env: &mut Env, rng: &mut R) {
+            bourse_de::agents::Agent::update(&mut self.own, env, rng)
+        }
+    }
+    #[derive(AgentSet)]
+    pub struct Outer {
+        pub first: inner::Pair,
+        pub wrapped: Wrapper,
+        pub last: inner::Pair,
+    }
+    impl Outer {
+        pub fn build(tag: &mut u32) -> Self {
+            let pair = |tag: &mut u32| inner::Pair { a: ProbeA::new(tag), b: ProbeB::new(tag) };
+            Self { first: pair(tag), wrapped: Wrapper { own: ProbeB::new(tag), set: pair(tag) }, last: pair(tag) }
+        }
+        pub fn manual<R: RngCore>(&mut self, env: &mut Env, rng: &mut R) {
+            self.first.update(env, rng);
+            self.wrapped.update(env, rng);
+            self.last.update(env, rng);
+        }
+    }
+    pub fn run(derived: bool, seed: u64, calls: usize) -> super::ShapeRun {
+        super::drive_single!(Outer, derived, seed, calls)
+    }
+}
+
+#[cfg(feature = "shapes_b")]
+pub mod scoped_multi {
+    use super::probes_multi::{ProbeA, ProbeB};
+    use bourse_de::agents::MarketAgentSet; // deliberately NOT `MarketAgent`
+    use bourse_de::MarketEnv;
+    use rand::RngCore;
+    pub mod inner {
+        use super::{ProbeA, ProbeB};
+        use bourse_de::agents::{MarketAgent, MarketAgentSet};
+        #[derive(MarketAgentSet)]
+        pub struct Pair {
+            pub a: ProbeA,
+            pub b: ProbeB,
+        }
+    }
+    pub struct Wrapper {
+        own: ProbeB,
+        set: inner::Pair,
+    }
+    impl std::ops::Deref for Wrapper {
+        type Target = inner::Pair;
+        fn deref(&self) -> &inner::Pair {
+            &self.set
+        }
+    }
+    impl std::ops::DerefMut for Wrapper {
+        fn deref_mut(&mut self) -> &mut inner::Pair {
+            &mut self.set
+        }
+    }
+    impl bourse_de::agents::MarketAgent for Wrapper {
+        fn update<R: RngCore, const M: usize, const N: usize>(&mut self, env: &mut MarketEnv<M, N>, rng: &mut R) {
+            bourse_de::agents::MarketAgent::update(&mut self.own, env, rng)
+        }
+    }
+    #[derive(MarketAgentSet)]
+    pub struct Outer {
+        pub first: inner::Pair,
+        pub wrapped: Wrapper,
+        pub last: inner::Pair,
+    }
+    impl Outer {
+        pub fn build(tag: &mut u32) -> Self {
+            let pair = |tag: &mut u32| inner::Pair { a: ProbeA::new(tag), b: ProbeB::new(tag) };
+            Self { first: pair(tag), wrapped: Wrapper { own: ProbeB::new(tag), set: pair(tag) }, last: pair(tag) }
+        }
+        pub fn manual<R: RngCore, const M: usize, const N: usize>(&mut self, env: &mut MarketEnv<M, N>, rng: &mut R) {
+            self.first.update(env, rng);
+            self.wrapped.update(env, rng);
+            self.last.update(env, rng);
+        }
+    }
+    pub fn run(derived: bool, seed: u64, calls: usize) -> super::ShapeRun {
+        super::drive_multi!(Outer, derived, seed, calls)
+    }
+}
+
 #[derive(Clone, Debug, PartialEq, Eq, Hash, Serialize, Deserialize)]
 pub struct ShapeCase {
     pub market: bool,
@@ -207,6 +326,9 @@ pub struct ShapeCase {
     /// second family of shapes (modules single_b / multi_b): colliding struct names, members named by path
     #[serde(default)]
     pub second: bool,
+    /// the hand-written scope-dependent shape (modules scoped_single / scoped_multi); `shape` is ignored
+    #[serde(default)]
+    pub scoped: bool,
 }
 
 pub fn outcome(c: &ShapeCase) -> Outcome {
@@ -218,6 +340,10 @@ pub fn outcome(c: &ShapeCase) -> Outcome {
 
 fn run(c: &ShapeCase) -> (Vec<(&'static str, u64)>, bool, Result<(), Failure>) {
     let calls = c.calls.clamp(1, 5) as usize;
+    #[cfg(feature = "shapes_b")]
+    if c.scoped {
+        return run_scoped(c, calls);
+    }
     let (n, info) = match (c.market, c.second) {
         (false, false) => (single::N_SHAPES, &single::INFO[..]),
         (true, false) => (multi::N_SHAPES, &multi::INFO[..]),
@@ -282,11 +408,27 @@ fn run(c: &ShapeCase) -> (Vec<(&'static str, u64)>, bool, Result<(), Failure>) {
     (classes, nontrivial, Ok(()))
 }
 
+#[cfg(feature = "shapes_b")]
+fn run_scoped(c: &ShapeCase, calls: usize) -> (Vec<(&'static str, u64)>, bool, Result<(), Failure>) {
+    let go = |derived: bool| if c.market { scoped_multi::run(derived, c.seed, calls) } else { scoped_single::run(derived, c.seed, calls) };
+    let (d, m) = (go(true), go(false));
+    let classes = vec![("shape_runs", 1u64), ("scope_dependent_shape_runs", 1), ("member_updates_logged", d.logs.iter().map(|l| l.len() as u64).sum())];
+    let tags = |r: &ShapeRun| -> Vec<Vec<u32>> { r.logs.iter().map(|l| l.iter().map(|x| x.tag).collect()).collect() };
+    let draws = |r: &ShapeRun| -> Vec<Vec<u64>> { r.logs.iter().map(|l| l.iter().map(|x| x.draw).collect()).collect() };
+    let res = if tags(&d) != tags(&m) || draws(&d) != draws(&m) || d.orders != m.orders || d.trades != m.trades || d.next_draw != m.next_draw {
+        Err(Failure::new("C20", "C20 derived update is not interchangeable with the hand-written method calls in the same scope", format!("{} scope-dependent shape (only the set trait imported, a member implementing the agent trait and dereferencing to a set), seed {}: derived updated members {:?}, hand-written sequence {:?}", if c.market { "MarketAgentSet" } else { "AgentSet" }, c.seed, tags(&d), tags(&m))))
+    } else {
+        Ok(())
+    };
+    (classes, true, res)
+}
+
 pub fn parts(tier: Tier) -> (Vec<Part<Case>>, String) {
     let seeds: u64 = tier.pick(600, 4_000);
     let (ns, nm) = (single::N_SHAPES as u64, multi::N_SHAPES as u64);
     let (nsb, nmb) = (single_b::N_SHAPES as u64, multi_b::N_SHAPES as u64);
-    let total = (ns + nm + nsb + nmb) * seeds;
+    let scoped: u64 = if cfg!(feature = "shapes_b") { 2 } else { 0 };
+    let total = (ns + nm + nsb + nmb + scoped) * seeds;
     let all = Part {
         name: "all-shapes-x-seeds".to_string(),
         kind: PartKind::Exhaustive {
@@ -300,17 +442,19 @@ pub fn parts(tier: Tier) -> (Vec<Part<Case>>, String) {
                     (true, false, (s - ns) as usize)
                 } else if s < ns + nm + nsb {
                     (false, true, (s - ns - nm) as usize)
-                } else {
+                } else if s < ns + nm + nsb + nmb {
                     (true, true, (s - ns - nm - nsb) as usize)
+                } else {
+                    return Some(Case::Shape(ShapeCase { market: s - ns - nm - nsb - nmb == 1, shape: 0, seed, calls: 1 + (i % 5) as u8, second: false, scoped: true }));
                 };
-                Some(Case::Shape(ShapeCase { market, shape, seed, calls: 1 + (i % 5) as u8, second }))
+                Some(Case::Shape(ShapeCase { market, shape, seed, calls: 1 + (i % 5) as u8, second, scoped: false }))
             }),
-            description: format!("every generated struct shape ({} deriving AgentSet, {} deriving MarketAgentSet; 1..8 named fields, random identifiers incl. raw identifiers and leading underscores in non-lexicographic order, member types from {{probe A, probe B, built-in random agents, an earlier derived set (nesting depth <= 2)}}) plus a second family in separate modules ({} + {} shapes) whose struct names collide with the first family's and whose members include sets of the first family named by path; x {} seeds x 1..5 consecutive update calls", ns, nm, nsb, nmb, seeds),
+            description: format!("every generated struct shape ({} deriving AgentSet, {} deriving MarketAgentSet; 1..8 named fields, random identifiers incl. raw identifiers and leading underscores in non-lexicographic order, member types from {{probe A, probe B, built-in random agents, an earlier derived set (nesting depth <= 2)}}) plus a second family in separate modules ({} + {} shapes) whose struct names collide with the first family's and whose members include sets of the first family named by path, plus two hand-written scope-dependent shapes (only the set trait imported; a member that implements the agent trait and dereferences to a set); x {} seeds x 1..5 consecutive update calls", ns, nm, nsb, nmb, seeds),
         },
     };
     let rnd = Part {
         name: "random-shape-seed".to_string(),
-        kind: PartKind::Random { make: Box::new(|| (any::<bool>(), 0usize..4096, any::<u64>(), 1u8..=5, 0u8..4).prop_map(|(market, shape, seed, calls, fam)| Case::Shape(ShapeCase { market, shape, seed, calls, second: fam == 0 })).boxed()), cases: tier.pick(20_000, 400_000) },
+        kind: PartKind::Random { make: Box::new(|| (any::<bool>(), 0usize..4096, any::<u64>(), 1u8..=5, 0u8..4).prop_map(|(market, shape, seed, calls, fam)| Case::Shape(ShapeCase { market, shape, seed, calls, second: fam == 0, scoped: false })).boxed()), cases: tier.pick(20_000, 400_000) },
     };
     (
         vec![all, rnd],
